@@ -109,6 +109,26 @@ func runC19(ctx *Ctx) {
 		hist[j.kind+" -> "+out]++
 		hmu.Unlock()
 	})
+	// the NG Setup procedure's other branch: the AMF refuses the first request with an NG SETUP FAILURE carrying Time To
+	// Wait (TS 38.413 8.7.1.3), and the reply to whatever the emulator sends next is the fault
+	ngSetupFailure := hx("4015000d000002000f400140006b400100") // cause misc/control-processing-overload, Time To Wait 1 s
+	if t, err := codec.Decode("NGAPPDU", refper.PDUTag, ngSetupFailure); err != nil || c19msgName(codec, ngSetupFailure) != "NGSetupFailure" {
+		r.HarnessError(fmt.Sprintf("the scripted NG SETUP FAILURE is not one: %v %v", err, t))
+	} else if ff, ok := faultFree[vectors[0]]; ok {
+		ParallelFor(r, len(kinds), func(l *report.Local, i int) {
+			kind := kinds[i]
+			emu := n2.DefaultEmuConfig()
+			emu.Reg, emu.Pdu, emu.Svc, emu.Rel, emu.Dereg = 1, 1, 1, 1, 1
+			a := refamf.New(acfg, refamf.DefaultChoices(), codec)
+			res := n2.Run(n2.Opts{YAML: emu.YAML(), AMF: a, Strace: true, RefuseFirst: ngSetupFailure, Fault: &n2.Fault{K: 2, Kind: kind, Data: c19faulty(kind, ff.Down[0])}, Horizon: 30 * time.Second, KeepGoing: true})
+			cs := fmt.Sprintf("NG SETUP FAILURE with Time To Wait, then the fault as the next reply: %s", kind)
+			out := c19judge(r, codec, cs, kind, ff.Down[0], res)
+			l.Case(cs, true, out)
+			hmu.Lock()
+			hist["after NG SETUP FAILURE: "+kind+" -> "+out]++
+			hmu.Unlock()
+		})
+	}
 	r.Set("outcomes_by_fault_kind", hist)
 	r.Sample("counts=[1 1 1 1 1] fault at downlink message 3 (DownlinkNASTransport): close -> the emulator's recvmsg returns 0; exit status must be non-zero, no banner, no sendmsg afterwards")
 	r.Sample("counts=[2 2 2 2 2] fault at downlink message 16 (PDUSessionResourceReleaseCommand): garbage-ff -> consumed (if at all) by a later deregistration read")
@@ -130,7 +150,7 @@ func runC19(ctx *Ctx) {
 			r.Set(fmt.Sprintf("traces_validated_realtime_%v", v), same)
 		}
 	}
-	r.Rule = fmt.Sprintf("for %d count vectors, every downlink message index k of the fault-free conversation (K = 6..19) x {AMF closes instead of sending message k; sends ff ff ff; sends 00; sends the first half of the message; sends 2047 / 2048 / 4096 octets of ff (just below, at and above the emulator's read buffer); sends the message with its PDU choice index destroyed; with its outer length determinant pointing beyond the end; with its IE count 256 too large} = %d fault points, each run as the real process under strace (sendmsg/recvmsg on the N2 descriptor = ground truth of what the emulator consumed and sent); "+
+	r.Rule = fmt.Sprintf("for %d count vectors, every downlink message index k of the fault-free conversation (K = 6..19) x {AMF closes instead of sending message k; sends ff ff ff; sends 00; sends the first half of the message; sends 2047 / 2048 / 4096 octets of ff (just below, at and above the emulator's read buffer); sends the message with its PDU choice index destroyed; with its outer length determinant pointing beyond the end; with its IE count 256 too large} = %d fault points, plus each fault kind as the reply that follows an NG SETUP FAILURE with Time To Wait, each run as the real process under strace (sendmsg/recvmsg on the N2 descriptor = ground truth of what the emulator consumed and sent); "+
 		"oracle: the process terminates within a 30 s horizon; if a recvmsg returned 0 / an error / the faulty octets, or a sendmsg failed (the emulator observed the fault), then exit status != 0, no completion banner and no sendmsg afterwards; exit 0 only if the faulty message was never consumed; the message after Registration Complete is exempt for the garbage kinds (deliberately ignored); faulty octets that the reference codec still decodes are out of scope; non-trivial = all; distinct = (vector, k, kind)", len(vectors), len(jobs))
 	r.Assume("strace -f is the monitor (ptrace available in the sandbox)", "test mode reports no sessions (only traffic mode prints them): 'reports a session it did not obtain' has nothing to observe here",
 		"time shim as in C01; thorough replays two conversations with real sleeps and requires byte-identical uplink histories")
